@@ -33,6 +33,14 @@ CHECKS = {
             "re-opened index must agree as well.",
             "Key discipline of the statement enforced by construction; delete queries exclude FuzzyTerm; add_field/remove_field not exercised in this check (C06 covers removed fields).",
             "DESIGN.md section 2 C07"),
+    "C09": ("exploration",
+            "property-based testing (Hypothesis): reference scorer re-derived from the corpus model (leaf layer) + compositional oracle over sub-query scores (composition layer)",
+            "Leaf layer: on generated deletion-free indexes every Term hit score under BM25F (B, K1, per-field B), TF_IDF, Frequency, PL2, DFree, MultiWeighting and "
+            "FunctionWeighting equals a reference scorer that re-derives all statistics from the document model. Composition layer: on any generated index the score of every "
+            "hit of a generated query tree equals the documented composition (sum / max / first / first+second / constant, times boosts; final() applied once) of the scores "
+            "of its sub-queries run alone on the same searcher; scores must not depend on limit or filter.",
+            "Field-length byte approximation treated as specification; tolerances 1e-9 (composition) and 2e-6 (reference scorer, float32 term statistics); DisjunctionMax tiebreak != 0 excluded (parameter unused by whoosh).",
+            "DESIGN.md section 2 C09"),
     "C15": ("exploration",
             "property-based testing (Hypothesis): metamorphic relation docs(r(q)) == docs(q) over generated query trees and indexes",
             "Generated query trees over all public query types (incl. spans, Sequence, NullQuery, empty compounds, overlapping ranges) are rewritten by "
